@@ -68,6 +68,8 @@ pub struct RunCfg {
     pub good_clients: usize,
     pub shadow_events: bool,
     pub alternate_clean: bool,
+    /// Some clients use MQTT 5 forms of packets (properties present).
+    pub v5_packets: bool,
 }
 
 const TOPICS: &[&str] = &["a/b", "a/c", "a/b/c", "d", "x/y/z", "$SYS/x", "\u{e9}t\u{e9}/b", "a/\u{4e16}"];
@@ -163,6 +165,7 @@ impl RunCfg {
             good_clients: n_clients,
             shadow_events: false,
             alternate_clean: false,
+            v5_packets: false,
         };
         if cfg.qos_mix.iter().all(|w| *w == 0) {
             cfg.qos_mix[1] = 1;
@@ -173,8 +176,10 @@ impl RunCfg {
         match prop {
             P::C01 => {
                 cfg.resub_qos_change = ch.coin(1, 4);
+                cfg.sub_ids = ch.coin(1, 4);
             }
             P::C06 => {
+                cfg.v5_packets = ch.coin(1, 3);
                 cfg.unsub_unknown = ch.coin(1, 3);
                 cfg.unsub_multi = ch.coin(1, 3);
                 cfg.w_ping = ch.range(0, 2);
@@ -507,6 +512,16 @@ fn to_packet(p: &SimPkt) -> pr::Packet {
                 reason: pr::PubRelReason::Success,
             },
             None,
+        ),
+        SimPkt::PubRelProps(p) => pr::Packet::PubRel(
+            pr::PubRel {
+                pkid: *p,
+                reason: pr::PubRelReason::Success,
+            },
+            Some(pr::PubRelProperties {
+                reason_string: None,
+                user_properties: vec![("k".to_string(), "v".to_string())],
+            }),
         ),
         SimPkt::PubComp(p) => pr::Packet::PubComp(
             pr::PubComp {
@@ -885,7 +900,7 @@ impl World {
         }
         match &pkt {
             SimPkt::Publish { qos: 2, .. } => link.qos2_unreleased += 1,
-            SimPkt::PubRel(_) if link.qos2_unreleased > 0 => link.qos2_unreleased -= 1,
+            SimPkt::PubRel(_) | SimPkt::PubRelProps(_) if link.qos2_unreleased > 0 => link.qos2_unreleased -= 1,
             _ => {}
         }
         let Some(tx) = link.tx.as_mut() else { return };
@@ -1082,6 +1097,27 @@ impl World {
         self.last_attr = None;
         self.attribute(l, &topic, &f.publish.payload, qos, f.publish.retain, &f);
         let at = self.last_attr.take();
+        // MQTT 5 subscription identifier: the one the subscription was made with
+        if let (Some((si, j)), Some(conn), true) = (at, self.links[l].conn, self.cfg.sub_ids && !self.done()) {
+            let want = self.spec.conns[conn].session.subs[si].sub_id;
+            let got: Vec<usize> = f
+                .properties
+                .as_ref()
+                .map(|p| p.subscription_identifiers.clone())
+                .unwrap_or_default();
+            let m = {
+                let s = &self.spec.conns[conn].session.subs[si];
+                self.spec.flogs[s.flog].entries[j] as usize
+            };
+            let ok = self.spec.conns[conn].session.subs[si].sub_id_ok_for(m, &got);
+            if !ok {
+                let path = self.spec.conns[conn].session.subs[si].path.clone();
+                self.c01_viol(
+                    "subscription_identifier",
+                    format!("c{c} received {topic} for its subscription {path} (identifier {want:?}) with subscription identifiers {got:?}"),
+                );
+            }
+        }
         self.links[l].fw_log.push(FwRec {
             qos,
             retained: f.publish.retain,
@@ -2228,7 +2264,12 @@ impl World {
             Act::Rel(l) => {
                 let c = self.links[l].client;
                 if let Some(p) = self.links[l].out_rel.pop_front() {
-                    self.push(l, SimPkt::PubRel(p));
+                    if self.cfg.v5_packets && c % 2 == 0 {
+                        self.rep.probe("pubrel_with_properties");
+                        self.push(l, SimPkt::PubRelProps(p));
+                    } else {
+                        self.push(l, SimPkt::PubRel(p));
+                    }
                 }
             }
             Act::Sub(l) => {
@@ -2538,7 +2579,7 @@ impl World {
         }
         match &pkt {
             SimPkt::Publish { qos: 2, .. } => link.qos2_unreleased += 1,
-            SimPkt::PubRel(_) if link.qos2_unreleased > 0 => link.qos2_unreleased -= 1,
+            SimPkt::PubRel(_) | SimPkt::PubRelProps(_) if link.qos2_unreleased > 0 => link.qos2_unreleased -= 1,
             _ => {}
         }
         let Some(tx) = link.tx.as_mut() else { return };
